@@ -8,7 +8,8 @@ LEVEL = "other"
 
 def run(chk, prog, tier):
     tab = Tab(prog)
-    gp = lambda r: not tab.is_vector(r)
+    # general-purpose rows, including the VEX-encoded BMI2 forms that operate on general registers
+    gp = lambda r: not tab.is_vector(r) or r.ident.get("type") == "VECTOR_EXT"
     TR.t1_wellformed(chk, tab, select=gp)
     TR.t1e_exhaustive(chk, tab)
     matched, unref = TR.t2_reference(chk, tab, gp, rule="T2")
